@@ -188,6 +188,20 @@ func newSymModel(pool *symPoolT) *symModel {
 	return &symModel{pool: pool, committed: map[string]bool{}, names: map[string]string{}, exts: map[[2]string]bool{}}
 }
 
+func (m *symModel) clone() *symModel {
+	c := newSymModel(m.pool)
+	for k, v := range m.committed {
+		c.committed[k] = v
+	}
+	for k, v := range m.names {
+		c.names[k] = v
+	}
+	for k, v := range m.exts {
+		c.exts[k] = v
+	}
+	return c
+}
+
 func pkgPrefixes(pkg string) []string {
 	var out []string
 	for i := 0; i < len(pkg); i++ {
@@ -353,14 +367,17 @@ func execC17(t *testing.T, c C17Case) *Verdict {
 			if err != nil && len(reported) > 0 {
 				err = fmt.Errorf("%w: %s", err, strings.Join(reported, "; "))
 			}
-			want := model.tryImport(op.File)
-			if !want {
-				// A failed import may or may not have imported some of the file's
-				// dependencies first (each is an import of another file in its own
-				// right): whatever dependency is visibly there, and could be there,
-				// is taken over into the model.
-				// (Dependencies of dependencies first: an import that fails in the
-				// middle of its dependencies has imported the ones before.)
+			// The model decides on a copy: a failed import leaves the model as it
+			// was, except for the file's dependencies, each of which is an import
+			// of another file in its own right that the failed import may or may
+			// not have performed first: whatever dependency is visibly there, and
+			// could be there, is taken over into the model (dependencies of
+			// dependencies first).
+			trial := model.clone()
+			want := trial.tryImport(op.File)
+			if want {
+				model = trial
+			} else {
 				var takeOver func(name string)
 				takeOver = func(name string) {
 					for _, d := range pool.files[name].deps {
